@@ -14,7 +14,8 @@ EXPLANATION = ("Three-way agreement decided from the source on every run: for 43
                "discriminants, parse switches and written literals equal the reference; the version gate is (0,2) on both sides; "
                "each creator declares pack_size = check position + the check block it actually writes + 64; each creator ends "
                "with the header/tail mirror. A symmetric change of writer and reader (invisible to any round-trip test) changes two "
-               "of the three. Not decided: that an independent decoder recovers the logical content; that a corpus reads.")
+               "of the three. Not decided: that an independent decoder recovers the logical content; that a corpus reads."
+               " (R7) plain value store: the declared data size equals what write_data emits (the remembered key changes only where the accumulator advances); (R8) cluster pointers are tail offsets (= C01-R6).")
 ASSUMPTIONS = ["the reference table was written from the pinned sources (DESIGN.md Appendix A)", "zerocopy/byteorder LE/BE helpers behave as documented",
                "rustc HIR/MIR construction and trait resolution"]
 
